@@ -183,7 +183,9 @@ def bounded_reset(pack, pid):
     """bounded native stand-in: PFlow.run(); reset(); PFlow.run() reproduces the first solution on stock cases"""
     from contracts.packutil import native_guard
     name = '%s/%s:System.reset/bounded:reset-then-power-flow-reproduces-the-first-solution' % (pid, FS)
-    cases = ['kundur/kundur_full.xlsx', '5bus/pjm5bus.xlsx', 'ieee14/ieee14_full.xlsx']
+    # ieee14_conn: a bus that is out of service in the data -- the devices attached to it are switched off by setup, and again by the
+    # setup inside reset(); kundur with bus 9 taken out of service after loading (alter: the input value changes too)
+    cases = ['kundur/kundur_full.xlsx', '5bus/pjm5bus.xlsx', 'ieee14/ieee14_full.xlsx', 'ieee14/ieee14_conn.xlsx']
 
     def go():
         import logging
@@ -194,10 +196,15 @@ def bounded_reset(pack, pid):
             ss = andes.load(andes.get_case(case), default_config=True, no_output=True)
             ss.PFlow.run()
             y1 = ss.dae.y.copy()
+            status = lambda: {m: [float(u) for u in ss.__dict__[m].u.v] for m in ('Bus', 'Line', 'PQ', 'PV', 'Slack', 'Shunt')}      # noqa
+            u1 = status()
             ss.reset()
             ss.PFlow.run()
             if y1.shape != ss.dae.y.shape or np.max(np.abs(ss.dae.y - y1)) > 1e-9:
-                return {'case': case, 'max|dy|': float(np.max(np.abs(ss.dae.y - y1))) if y1.shape == ss.dae.y.shape else 'shape'}
+                return {'case': case, 'max|dy|': float(np.max(np.abs(ss.dae.y - y1))) if y1.shape == ss.dae.y.shape else 'shape',
+                        'models whose in-service statuses differ after the reset': [m for m, v in status().items() if v != u1[m]]}
+            if status() != u1:
+                return {'case': case, 'models whose in-service statuses differ after the reset': [m for m, v in status().items() if v != u1[m]]}
         return None
     bad = native_guard(pack, name, go)
     pack.bounded.append({'function': 'System.reset', 'kind': 'bounded native (stock cases)', 'bound': ', '.join(cases), 'counted_as_proved': False})
@@ -311,3 +318,96 @@ def load_ss_c(pid):
     return c
 
 replay_snapshot.real_system = True       # drives the real program on stock inputs: a crash inside repository code is a confirmed failure
+
+
+RESIZE = (('x', 'n', 'zeros'), ('y', 'm', 'zeros'), ('z', 'o', 'zeros'), ('f', 'n', 'zeros'), ('g', 'm', 'zeros'), ('h', 'p', 'zeros'), ('i', 'q', 'zeros'),
+          ('Tf', 'n', 'ones'))
+
+
+def dae_resize_arrays(pid):
+    """DAE.resize_arrays: every vector (x, y, z, f, g, h, i, Tf) becomes _extend_or_slice(its old self, its size[, ones for Tf]) --
+    in particular the states solved by the power flow survive the extension for the dynamic models; nothing else is written."""
+    from pyvc.symval import ArrC, Ref, I, R
+
+    def ext(ex, st, args, kw, node):
+        arr, size = args[0], args[1]
+        fill = kw.get('fill_func', args[2] if len(args) > 2 else None)
+        r = st.new_ref(ArrC(fresh('ext', z3.ArraySort(I, R)), to_z3(size), None), 'ext')
+        st.ghost['ext'] = st.ghost['ext'] + [(r.loc, arr.loc if isinstance(arr, Ref) else None, to_z3(size), fill)]
+        return r
+
+    def post(old, new, res):
+        calls = {c[0]: c for c in new.st.ghost['ext']}
+        for field, size, fill in RESIZE:
+            now = new.get('self.' + field)
+            c = calls.get(getattr(now, 'loc', None))
+            if c is None or c[1] != old.get('self.' + field).loc or not c[2].eq(old.z('self.' + size)):
+                return z3.BoolVal(False)
+            name = getattr(c[3], 'name', None) or ('' if c[3] is None else repr(c[3]))
+            if (fill == 'zeros') != (c[3] is None or name.endswith('zeros')) or (fill == 'ones' and not name.endswith('ones')):
+                return z3.BoolVal(False)
+        return z3.BoolVal(True)
+    sch = {}
+    for field, size, _ in RESIZE:
+        sch['self.' + field] = TArr()
+        sch['self.' + size] = TInt()
+    return Contract(FD, 'DAE.resize_arrays', pid=pid, params={'self': TObj()}, schema=sch, ghost_init={'ext': []},
+                    calls={'self._extend_or_slice': ext},
+                    ensures=[('every-vector=_extend_or_slice(old-vector,its-size)(ones-for-Tf):earlier-entries-survive', post)],
+                    modifies=['self.' + f for f, _, _ in RESIZE])
+
+
+def replay_resize_arrays(obligation=None, model=None, meta=None):
+    """native run of the real DAE.resize_arrays / _extend_or_slice on a stub: vectors that already hold values (states and variables
+    solved by the power flow) are grown, kept or shrunk -- the common prefix is kept, new entries are 0 (1 for Tf)"""
+    import numpy as np
+    from andes.variables.dae import DAE
+    from contracts.packutil import Stub
+    n = 0
+    for n0, n1, m0, m1 in ((0, 3, 4, 6), (2, 5, 4, 6), (2, 2, 4, 4), (3, 1, 4, 2), (5, 9, 0, 3)):
+        vec = lambda k, base: np.arange(k, dtype=float) + base      # noqa
+        old = dict(x=vec(n0, 0.5), f=vec(n0, 7.5), Tf=vec(n0, 2.0), y=vec(m0, 10.5), g=vec(m0, 20.5), z=vec(0, 0), h=vec(0, 0), i=vec(0, 0))
+        stub = Stub(DAE, n=n1, m=m1, o=0, p=0, q=0, **{k: v.copy() for k, v in old.items()})
+        n += 1
+        DAE.resize_arrays(stub)
+        for field, size in (('x', n1), ('f', n1), ('Tf', n1), ('y', m1), ('g', m1)):
+            keep = min(len(old[field]), size)
+            want = np.concatenate([old[field][:keep], (np.ones if field == 'Tf' else np.zeros)(size - keep)])
+            got = np.asarray(getattr(stub, field), dtype=float)
+            if got.shape != want.shape or not np.array_equal(got, want):
+                return {'confirmed': True, 'inputs': {'sizes before (n, m)': (n0, m0), 'sizes after (n, m)': (n1, m1), 'dae.%s before' % field: old[field].tolist()},
+                        'observed': 'dae.%s after resize_arrays is %r; the entries it had survive and new ones are %s: %r' % (
+                            field, got.tolist(), '1' if field == 'Tf' else '0', want.tolist()),
+                        'native_cmd': 'DAE.resize_arrays(stub)'}
+    return {'confirmed': False, 'tried': n}
+
+
+def dae_extend_or_slice(pid, fill):
+    """DAE._extend_or_slice(array, new_size[, fill_func]): length new_size; the common prefix is kept; new entries are the fill value."""
+    from pyvc.symval import ArrC, Ref, I, R, Func, TConst
+    N0, N1 = fresh('len', I), fresh('new_size', I)
+    FILL = 1 if fill == 'ones' else 0
+
+    def fill_func(ex, st, args, kw, node):
+        k = to_z3(args[0])
+        return st.new_ref(ArrC(z3.K(I, z3.RealVal(FILL)), k, None), 'fill')
+
+    def append(ex, st, args, kw, node):
+        a, b = st.content(args[0]), st.content(args[1])
+        k = fresh('k', I)
+        return st.new_ref(ArrC(z3.Lambda([k], z3.If(k < a.n, a.vals[k], b.vals[k - a.n])), a.n + b.n, None), 'append')
+
+    def post(old, new, res):
+        r = new.st.content(res)
+        a = old.st.content(old.local('array'))
+        k = fresh('k', I)
+        return z3.And(r.n == N1, z3.ForAll([k], z3.Implies(z3.And(k >= 0, k < N1), r.vals[k] == z3.If(k < N0, a.vals[k], z3.RealVal(FILL)))))
+    params = {'self': TObj(), 'array': TArr(n=N0), 'new_size': TInt()}
+    calls = {'np.append': append, 'fill_func': fill_func, 'np.zeros': fill_func}
+    if fill == 'ones':
+        params['fill_func'] = Func('fill_func')
+    c = Contract(FD, 'DAE._extend_or_slice', pid=pid, params=params, schema={},
+                 requires=[('sizes', lambda v: z3.And(N0 >= 0, N1 >= 0, to_z3(v.local('new_size')) == N1))],
+                 calls=calls, ensures=[('length-new_size;common-prefix-kept;new-entries-%s' % ('one' if FILL else 'zero'), post)], modifies=[])
+    c.tag = fill
+    return c
